@@ -339,6 +339,9 @@ def powq(p, q):
         return ONE
     if q.denominator == 1:
         n = q.numerator
+        at = p.single_atom()
+        if at is not None and isinstance(at, App) and at.op == "sqrt" and n % 2 == 0:
+            return powq(at.args[0], n // 2)
         if n > 0:
             r = ONE
             for _ in range(n):
